@@ -438,8 +438,8 @@ META = {
             "numeric/boolean shorthand, comments and whitespace, blank-node label shapes, RDF/XML and JSON-LD alternatives): rdflib must parse each to the original graph "
             "through each of nine ways of handing over the document. rdflib's N-Triples/N-Quads output is read by a strict grammar implementation validated on the "
             "W3C syntax tests; XML and JSON outputs are checked for well-formedness.",
-    "note": "Deviation bound 2 (quick) / 3 (thorough; 4 was run once, 2.4M documents, clean) over 10 N-Triples, 38 Turtle/TriG, 21 RDF/XML and 21 JSON-LD spelling "
+    "note": "Deviation bound 2 (quick) / 3 (thorough; 4 was run once, 2.4M documents, clean) over %d N-Triples, %d Turtle/TriG, %d RDF/XML and %d JSON-LD spelling "
             "deviations; ~100 graphs and ~55 datasets; nine input modes for <=1 deviation, XML also as UTF-16 / Latin-1 / UTF-8+BOM bytes; the writers are trusted "
-            "only as far as their plain spellings are cross-checked.",
+            "only as far as their plain spellings are cross-checked." % (len(W.NT_FLAGS), len(W.TTL_FLAGS), len(W.XML_FLAGS), len(W.JSONLD_FLAGS)),
     "technique": "deviation-bounded exhaustive enumeration of document spellings from independent grammar-based writers, with an isomorphism oracle",
 }
